@@ -183,7 +183,8 @@ OperandUnchanged ==
 
 (* ------------------------------ emission ------------------------------------------------ *)
 Emit == EmitEdge([pre |-> [sobs |-> sobs], post |-> [sobs |-> sobs'],
-                  op |-> last', exp |-> [s \in S |-> [p \in 1..Len(sobs'[s]) |->
+                  \* expected content of every set whose ghost changed in this step (<<"same">>: as before the step)
+                  op |-> last', exp |-> [s \in S |-> IF sobs'[s] = sobs[s] THEN <<"same">> ELSE [p \in 1..Len(sobs'[s]) |->
                                          [f |-> Fold(sobs'[s][p]), n |-> Len(sobs'[s][p]),
                                           st |-> IF Type \in {"SUM", "RATIO"} THEN Stats(Fold(sobs'[s][p])) ELSE <<>>]]]])
 =============================================================================
